@@ -109,7 +109,7 @@ PROPERTIES["C07"] = dict(
                 "for all cells of resolution ≥ 1; the world cell's 12 and 60; every cell of resolution ≥ 2 is listed exactly under its parent",
     assumptions=[VALID, FMT_STUB],
     trusted_base=["bit-level oracle spec_valid, proved equal to the real code by oracle_valid_equiv in the same run"],
-    outside_claim=["per-call fan-out above 4 from a symbolic cell (12 and 60 from the concrete world cell are executed); two levels down in one call and the children of a *base* cell (5, 20) ran out of memory (36–45 GB) with a symbolic face and are not claimed by a dedicated harness — the 60 quintants are checked under their base cells through c07_world, deeper levels follow from composition (c07_compose)"],
+    outside_claim=["per-call fan-out above 4 from a symbolic cell (12 and 60 from the concrete world cell are executed); two levels down in one call from a cell of symbolic level ≥ 2 and the children of a *base* cell (5, 20) ran out of memory (21–45 GB) and are not claimed by a dedicated harness (two levels down from a quintant cell, resolution 1 → 3, is decided in the thorough tier by c07_children_d2_r1) — the 60 quintants are checked under their base cells through c07_world, deeper levels follow from composition (c07_compose)"],
     harnesses=[
         oracle("oracle_valid_equiv"), oracle("oracle_res_equiv"), oracle("oracle_covers_equiv"),
         H("c07_compose", "c07", [Q, T], "∀ valid cell(0..29) c, ∀ −1≤b≤a≤r: parent(parent(c,a),b)=parent(c,b), res(parent(c,a))=a, canonical; default arg = r−1",
@@ -120,10 +120,6 @@ PROPERTIES["C07"] = dict(
           functions=HIER, bounds="fan-out 4; loops 1×1×4 (unwinding assertions on)", unwindset=ch_unwind(1, 1, 4), assumes=[VALID], deps=["oracle_valid_equiv"], timeout=1500, mem_gb=24),
         H("c07_children_d2_r1", "c07", [T], "∀ quintant cell (resolution 1, all faces × quintants), ∀ i<16: children(c,3) has 16 entries and [i] = spec_child(spec_child(c,i>>2),i&3) — the jump from the non-Hilbert levels into the curve in one call",
           functions=HIER, bounds="fan-out 16; loops 1×1×16 (unwinding assertions on); parent resolution 1", unwindset=ch_unwind(1, 1, 16), assumes=[VALID, "get_resolution ↦ res_stub"], deps=["oracle_res_equiv", "c07_children_d1"], timeout=2400, mem_gb=40, mem_est=20),
-        H("c07_children_d2_r27", "c07", [T], "∀ valid cell of resolution 27, ∀ i<16: children(c,29) has 16 entries and [i] = spec_child(spec_child(c,i>>2),i&3) — two levels in one call at the deepest levels",
-          functions=HIER, bounds="fan-out 16; loops 1×1×16 (unwinding assertions on); parent resolution 27", unwindset=ch_unwind(1, 1, 16), assumes=[VALID, "get_resolution ↦ res_stub"], deps=["oracle_res_equiv", "c07_children_d1"], timeout=2400, mem_gb=40, mem_est=22),
-        H("c07_children_d2_r2", "c07", [T], "∀ valid cell of resolution 2, ∀ i<16: children(c,4) has 16 entries and [i] = spec_child(spec_child(c,i>>2),i&3) — two levels in one call at the first Hilbert level",
-          functions=HIER, bounds="fan-out 16; loops 1×1×16 (unwinding assertions on); parent resolution 2", unwindset=ch_unwind(1, 1, 16), assumes=[VALID, "get_resolution ↦ res_stub"], deps=["oracle_res_equiv", "c07_children_d1"], timeout=2400, mem_gb=40, mem_est=22),
         H("c07_world", "c07", [Q, T], "world cell: 12 children at r=0, 60 at r=1: distinct, right resolution, canonical, parent = world / the right base cell; get_res0_cells agrees",
           functions=HIER + ["a5::core::serialization::get_res0_cells"], bounds="concrete input; fan-out 12 and 60 fully unwound", exhaustive=True, timeout=1500),
         H("c07_cover_hi", "c07", [Q, T], "∀ valid cell y, r≥3: y = children(parent(y))[s&3]", functions=HIER, bounds="none on y; loops 1×1×4",
@@ -397,7 +393,7 @@ PROPERTIES["C09"] = dict(
     explanation="uncompact = per-input cell_to_children in input order, right length, Err (nothing returned) iff some input is finer than the target; descendant-set facts then follow from C07's children harnesses",
     assumptions=[VALID, FMT_STUB],
     trusted_base=[],
-    outside_claim=["lists longer than 3; lists mixing fan-outs beyond c09_pair_d1", "fan-out > 12 per input", "d ≥ 2 levels in one call (follows by C07 composition, not executed)"],
+    outside_claim=["lists longer than 3; lists mixing fan-outs beyond c09_pair_d1", "fan-out > 12 per input", "d ≥ 2 levels in one call, except the callee's resolution 1 → 3 expansion (thorough: c07_children_d2_r1); the rest follows by C07 composition, not executed"],
     harnesses=[
         oracle("oracle_res_equiv"), oracle("oracle_valid_equiv"),
         H("c09_single_flat", "c09", [Q, T], "∀ valid cell(−1..29) c, ∀ t∈−1..res c: uncompact([c],t) = [c] iff t=res c, else Err", functions=UNC, bounds="one input; fan-out 1 (expansion loops cut: unreachable in this class, unwinding assertions on)", unwindset=ch_unwind(0, 0, 0), assumes=[VALID, "get_resolution ↦ res_stub"], deps=["oracle_res_equiv"], timeout=1500, mem_gb=16),
@@ -414,6 +410,8 @@ PROPERTIES["C09"] = dict(
           functions=HIER, bounds="fan-out 4; loops 1×1×4 (unwinding assertions on)", unwindset=ch_unwind(1, 1, 4), assumes=[VALID], deps=["oracle_valid_equiv"], timeout=1500, mem_gb=24),
         H("oracle_child_equiv", "oracles", [Q, T], "∀ valid cell(1..28), k<4: spec_child(id,k) = serialize(child k)", functions=SER, bounds="none", exhaustive=True),
         H("c07_fanout", "c07", [Q, T], "pre-count formula: get_num_children = ∏ apertures", functions=["a5::core::cell_info::get_num_children"], bounds="c−p ≤ 8"),
+        H("c07_children_d2_r1", "c07", [T], "∀ quintant cell (resolution 1), ∀ i<16: cell_to_children(c,3) — uncompact's callee, two levels in one call — has 16 entries and [i] = spec_child(spec_child(c,i>>2),i&3)",
+          functions=["a5::core::serialization::cell_to_children"] + SER, bounds="fan-out 16; loops 1×1×16 (unwinding assertions on); parent resolution 1", unwindset=ch_unwind(1, 1, 16), assumes=[VALID, "get_resolution ↦ res_stub"], deps=["oracle_res_equiv", "c07_children_d1"], timeout=2400, mem_gb=40, mem_est=20),
         H("c09_world", "c09", [Q, T], "uncompact([world],0) = the 12 base cells in face order, each canonical of resolution 0", functions=UNC,
           bounds="concrete input; fan-out 12 fully unwound", timeout=1500, mem_gb=16, assumes=["get_resolution ↦ res_stub"], deps=["oracle_res_equiv", "oracle_valid_equiv"]),
     ],
